@@ -27,6 +27,7 @@ import (
 	"github.com/jsightapi/jsight-api-core/verifhook"
 
 	"verifharness/internal/proto"
+	"verifharness/internal/ref"
 )
 
 var (
@@ -507,7 +508,11 @@ func runJob(j *proto.Job) (res *proto.Result) {
 			other := sig(bb, outs)
 			for k := range first {
 				if first[k] != other[k] {
-					res.Diffs = append(res.Diffs, proto.RepeatDiff{Iter: i, What: k, First: trunc(first[k], 600), Other: trunc(other[k], 600)})
+					d := proto.RepeatDiff{Iter: i, What: k, First: trunc(first[k], 600), Other: trunc(other[k], 600)}
+					if strings.HasPrefix(first[k], "B:") && strings.HasPrefix(other[k], "B:") {
+						d.OnlyExamples = ref.OnlyExamplesDiffer([]byte(first[k][2:]), []byte(other[k][2:]))
+					}
+					res.Diffs = append(res.Diffs, d)
 				}
 			}
 		}
